@@ -1308,6 +1308,16 @@ func (e *Engine) conv(t_dst, t_src types.Type, x value) value {
 			// To at least preserve type-safety, we'll
 			// just return the zero value of the
 			// destination type.
+			//
+			// symgo: the cell is kept (nil stays nil); load() knows the one
+			// pun it can model (string over the bytes of a slice) and reports
+			// every other one as unsupported instead of a nil dereference
+			// that the real program does not have.
+			if up, ok := x.(unsafe.Pointer); ok && up != nil {
+				if _, isPtr := ut_dst.(*types.Pointer); isPtr {
+					return (*value)(up)
+				}
+			}
 			return zero(t_dst)
 		}
 
